@@ -1,3 +1,4 @@
 import CohdlVerif.Model.DriverLoop
--- model driver of property C06 (stub: no model entry points yet)
-def main : IO Unit := CohdlVerif.driverLoop (fun _ => "bad-op")
+import CohdlVerif.Model.C06Driver
+-- model driver of property C06: pick / san / valid / lower / raw / assign  (see Model/C06Driver.lean)
+def main : IO Unit := CohdlVerif.driverLoop CohdlVerif.C06.handle
